@@ -476,10 +476,10 @@ def classify_e2e(ed, info, before, after, groups_new, table, live, dropped=(), f
 
 # ----------------------------------------------------------------------------------------------------
 
-def shrink(src, ed, still_bad, budget_s=20.0):
+def shrink(src, ed, still_bad, budget_s=20.0, n_prelude=None):
   """Drops top-level statements (after the prelude) while the same deviation persists."""
   deadline = time.time() + budget_s
-  npre = len(P.PRELUDE.rstrip("\n").split("\n"))
+  npre = len(P.PRELUDE.rstrip("\n").split("\n")) if n_prelude is None else n_prelude
   changed = True
   while changed and time.time() < deadline:
     changed = False
@@ -585,6 +585,10 @@ def run(res):
       "validity read from the live directors._PRAGMAS/_ALLOWED_FEATURES",
       "bisect.bisect / bisect_left modelled by the binary search of CPython's Lib/bisect.py",
       "error names are encoded as numbers by harness/props/c03_gen.py (bijection printed in the generated file)",
+      "that the line the director's filter sees (inside ErrorLog._add) is the line the error is finally reported "
+      "on (ErrorLog.error(line=...), Error.set_line, fake stacks in vm_utils) is OUTSIDE the model and the "
+      "Director-level correspondence (both take the error's line as input): it is covered by the end-to-end leg "
+      "only, on the error classes listed in coverage.e2e_error_class_by_edit_kind",
   ]
   # --- regenerate the table-like part of the model from the source (fail closed)
   try:
@@ -629,6 +633,16 @@ def run(res):
     disable = r.choice([[], [], [], ["name-error"], ["attribute-error", "bogus"], ["wrong-arg-types"]])
     edits = make_edits(r, src, 5, 2, 2, 1, 1)
     work.append((f"p{i}", src, disable, edits, i < n_e2e_prog))
+
+  # programs of the per-error-class catalogue (match statements, function type comments, ... : parser shapes the
+  # grammar above does not produce); a rotating subset in the quick tier
+  sp = sorted(P.SPECIALS.items())
+  if not thorough:
+    r.shuffle(sp)
+    sp = sp[:8]
+  for sname, ssrc in sp:
+    if parses(ssrc):
+      work.append(("special:" + sname, ssrc, [], make_edits(r, ssrc, 3, 1, 1, 0, 1), False))
 
   cases = []        # coq case texts
   case_meta = []
@@ -813,11 +827,57 @@ def run(res):
 
   # --- end-to-end metamorphic oracle
   t0 = time.time()
-  budget = 600 if thorough else 30
+  budget = 600 if thorough else 32
   n_e2e = 0
   n_unexplorable = 0
   base_cache = {}
-  # one job per (program, reported error): append the directive to the line pytype reports
+  class_by_kind = collections.Counter()     # "class/edit-kind" -> number of e2e comparisons
+  specials_without_error = []
+
+  def run_e2e_edit(tag, src, disable, e1, cls=None):
+    nonlocal n_e2e, n_unexplorable
+    devs = e2e_deviations(src, disable, e1, table, live)
+    if devs is None:
+      n_unexplorable += 1
+      return
+    n_e2e += 1
+    kinds["e2e:" + e1["kind"]] += 1
+    if cls:
+      class_by_kind[cls + "/" + e1["kind"]] += 1
+    res.count(("e2e", src, json.dumps(e1, sort_keys=True)))
+    for fp in sorted({d[0] for d in devs}):
+      dev_hist["e2e:" + fp] += 1
+      detail = next(d[1] for d in devs if d[0] == fp)
+      rep = {"src": src, "disable": disable, "edit": e1, "level": "e2e", "from": tag}
+      if fp not in res.known and can_report(fp):
+        def still(c_src, c_ed, fp=fp):
+          dv = e2e_deviations(c_src, disable, c_ed, table, live)
+          return bool(dv) and any(d[0] == fp for d in dv)
+        s2, e2 = shrink(src, e1, still, 20.0, n_prelude=0 if tag.startswith("special:") else None)
+        rep = {"src": s2, "disable": disable, "edit": e2, "level": "e2e", "from": tag}
+      report(fp, detail, rep)
+
+  # (1) breadth first: one small program per error class (c03_progs.SPECIALS); every error it reports gets a
+  #     trailing disable on its reported line, the first one also a type: ignore
+  for sname, ssrc in P.SPECIALS.items():
+    if time.time() - t0 > budget * 0.5:
+      break
+    b, why = analyse(ssrc, [])
+    if b is None:
+      n_unexplorable += 1
+      continue
+    app = set(P.appendable_lines(ssrc))
+    targets = sorted({(t[0], t[1]) for t in b[0] if t[0] in app and t[1] in table["known"]})
+    if not targets:
+      specials_without_error.append(sname)
+    for j, (l, n) in enumerate(targets[: (8 if thorough else 4)]):
+      run_e2e_edit("special:" + sname, ssrc, [], {"kind": "trailing", "line": l, "name": n}, n)
+      if j == 0 or thorough:
+        run_e2e_edit("special:" + sname, ssrc, [], {"kind": "ignore", "line": l}, n)
+  res.extra["e2e_special_programs"] = len(P.SPECIALS)
+  res.extra["e2e_special_programs_without_error"] = specials_without_error
+
+  # (2) the generated programs: one job per (program, reported error): append the directive to the reported line
   e2e_plan = []
   seen_prog = set()
   for tag, src, disable, ed in e2e_jobs:
@@ -837,38 +897,22 @@ def run(res):
       if b is None:
         n_unexplorable += 1
         continue
-      base_cache[(src, tuple(disable))] = b
       app = set(P.appendable_lines(src))
       targets = sorted({(t[0], t[1]) for t in b[0] if t[0] in app and t[1] in table["known"]})
       r.shuffle(targets)
-      eds = []
-      for (l, n) in targets[: (6 if thorough else 3)]:
-        eds.append({"kind": "trailing", "line": l, "name": n})
+      # prefer classes exercised least so far
+      targets.sort(key=lambda t: class_by_kind[t[1] + "/trailing"])
+      eds = [({"kind": "trailing", "line": l, "name": n}, n) for (l, n) in targets[: (6 if thorough else 3)]]
       if targets:
-        eds.append({"kind": "ignore", "line": targets[0][0]})
+        eds.append(({"kind": "ignore", "line": targets[0][0]}, targets[0][1]))
     else:
-      eds = [ed]
-    for e1 in eds:
+      eds = [(ed, ed.get("name"))]
+    for e1, cls in eds:
       if time.time() - t0 > budget:
         break
-      devs = e2e_deviations(src, disable, e1, table, live)
-      if devs is None:
-        n_unexplorable += 1
-        continue
-      n_e2e += 1
-      kinds["e2e:" + e1["kind"]] += 1
-      res.count(("e2e", src, json.dumps(e1, sort_keys=True)))
-      for fp in sorted({d[0] for d in devs}):
-        dev_hist["e2e:" + fp] += 1
-        detail = next(d[1] for d in devs if d[0] == fp)
-        rep = {"src": src, "disable": disable, "edit": e1, "level": "e2e"}
-        if fp not in res.known and can_report(fp):
-          def still(c_src, c_ed, fp=fp):
-            dv = e2e_deviations(c_src, disable, c_ed, table, live)
-            return bool(dv) and any(d[0] == fp for d in dv)
-          s2, e2 = shrink(src, e1, still, 20.0)
-          rep = {"src": s2, "disable": disable, "edit": e2, "level": "e2e"}
-        report(fp, detail, rep)
+      run_e2e_edit(tag, src, disable, e1, cls)
+  res.extra["e2e_error_class_by_edit_kind"] = dict(sorted(class_by_kind.items()))
+  res.extra["e2e_error_classes_exercised"] = len({k.split("/")[0] for k in class_by_kind})
   res.extra["e2e_edits_analysed"] = n_e2e
   res.extra["e2e_not_explorable"] = n_unexplorable
   res.extra["e2e_wall_s"] = round(time.time() - t0, 1)
